@@ -10,32 +10,15 @@ import sys
 HOME = os.path.dirname(os.path.dirname(os.path.abspath(__file__)))
 
 # id -> (level category, technique, level text, level note, design ref)
-CHECKS = {
-    "C01": (
-        "exploration",
-        "bounded exhaustive enumeration of unit pairs / spellings / compound containers / dimension specs against an independent definition-file reader (R1) — small-scope model checking of the compatibility relation",
-        "All ordered pairs of the multiplicative canonical units of the bundled registry (~150k), every defined spelling alone and prefixed/pluralised, every ordered pair of 1-2 entry "
-        "compound containers over a 7-unit alphabet with integer and half-integer exponents, all triples of a 40-container sub-alphabet (equivalence laws, closure under * / **), every "
-        "declared dimension x exponent alphabet as a dimension spec through get_dimensionality / Quantity.check / ureg.check, compatible-unit listings of every unit, and 54 generated "
-        "registries with derived-dimension DAGs: each conversion must return a number exactly when R1's base-dimension vectors agree and raise DimensionalityError otherwise, and each "
-        "predicate must equal that relation. thorough repeats everything for Fraction, Decimal, case-insensitive and auto_reduce_dimensions registries.",
-        "Trusted: R1 (mc/ref/defs.py, no pint imports; cross-checked against pint on the unchanged tree). Strings with several non-equivalent prefix readings are left to C08; offset/log units to C06; "
-        "compounds with more than 2 (pairs) / 3 factors and units added after construction are outside the bound.",
-        "DESIGN.md §4 C01",
-    ),
-    "C04": (
-        "exploration",
-        "bounded exhaustive enumeration of unit containers / dimension matrices against an exponent-vector reference model (small-scope model checking of the operator algebra)",
-        "Every container over a 3-name alphabet with exponents in a small range, every ordered pair (* /, ==, hash), every triple of the sub-alphabet "
-        "(associativity), every (u,a,b) power-law instance, at the UnitsContainer, ParserHelper, Unit, Quantity-unit and dimensionality layers and for "
-        "int/float/Fraction/Decimal exponents, plus every integer dimension matrix within the stated shape for both pi_theorem entry points, is executed "
-        "on the real code and compared with dict-of-Fraction arithmetic. The laws are algebraic identities over finitely many branch shapes, so a wrong "
-        "branch shows at the smallest instance; the enumeration is complete within the bound.",
-        "Trusted: the 40-line exponent-vector model and Fraction rank computation in checks/c04_group.py; float exponents are dyadic so arithmetic is exact. "
-        "Not covered: containers with more than 3 names, exponents outside the alphabet, matrices larger than 4x3.",
-        "DESIGN.md §4 C04",
-    ),
-}
+CHECKS = {}
+sys.path.insert(0, HOME)
+import importlib
+
+for _f in sorted(glob.glob(os.path.join(HOME, "checks", "c[0-9]*_*.py"))):
+    _m = importlib.import_module("checks." + os.path.basename(_f)[:-3])
+    if hasattr(_m, "MANIFEST"):
+        _d = _m.MANIFEST
+        CHECKS[_m.PROPERTY] = (_d["category"], _d["technique"], _d["text"], _d["note"], _d["ref"])
 
 NOT_YET = "check not built yet in this revision (planned, see DESIGN.md §4); not claimed"
 NA = {}
